@@ -31,7 +31,7 @@ ANCHORS = [
     "acnportal.acnsim.analysis:aggregate_current",
     "acnportal.acnsim.analysis:total_energy_delivered",
 ]
-REQUIRED = ["peak_checked_at_period_end", "finished_simulations_continued_with_more_arrivals", "runs_with_scheduler_trial_charging_its_copies", "resumed_runs_judged", "resumed_after_json", "stochastic_runs_judged", "stochastic_runs_with_early_departure", "stochastic_cells_checked", "runs_judged", "sessions_reconciled", "charge_calls_logged", "charge_calls_matched_to_cells", "second_simulations_with_reset_evs", "vacant_cells_checked", "vacant_station_pilots",
+REQUIRED = ["runs_with_discharging_schedules", "peak_checked_at_period_end", "finished_simulations_continued_with_more_arrivals", "runs_with_scheduler_trial_charging_its_copies", "resumed_runs_judged", "resumed_after_json", "stochastic_runs_judged", "stochastic_runs_with_early_departure", "stochastic_cells_checked", "runs_judged", "sessions_reconciled", "charge_calls_logged", "charge_calls_matched_to_cells", "second_simulations_with_reset_evs", "vacant_cells_checked", "vacant_station_pilots",
             "battery_json_dumps", "regime:heterogeneous-voltage", "regime:noise-battery", "regime:two-stage", "regime:ideal"]
 BUDGET_S = {"quick": 240, "thorough": 3000}
 
@@ -66,6 +66,14 @@ def cases(seed, tier):
         r = rng.random()
         if r < 0.6:
             d = gen.scenario(rng, sched="scripted", noise_p=0.3, long_p=0.1)
+            if rng.random() < 0.07:
+                # bidirectional (V2G) stations: ranges extending below zero, schedules that discharge some cars while charging
+                # others; a negative rate is a rate like any other in the ledger
+                for st_ in d["network"]["stations"]:
+                    st_["evse"] = {"t": "EVSE", "max": 32, "min": -32}
+                d["scheduler"].update(mode="cancel", mr=rng.choice([1, 1, None, 2]))
+                d["scheduler"].pop("buffered", None)
+                d["v2g"] = True
         elif r < 0.8:
             d = gen.scenario(rng, sched="uncontrolled", noise_p=0.3)
         else:
@@ -256,6 +264,8 @@ def run_case(case, obs):
     if case.get("resumed_at") is not None:
         return _run_resumed(case, obs)
     d = case["desc"]
+    if d.get("v2g"):
+        obs.ev("runs_with_discharging_schedules")
     sch = None
     evs0 = None
     if case.get("reuse") and not case.get("meddle"):
